@@ -166,7 +166,14 @@ defjvp(anp.gradient, "same")
 defjvp(anp.repeat, "same")
 defjvp(anp.tile, "same")
 defjvp(anp.transpose, "same")
-defjvp(anp.sum, "same")
+
+
+def fwd_grad_np_sum(g, ans, x, axis=None, dtype=None, out=None, keepdims=False, initial=0, **kwargs):
+    # `initial` is a constant added to the sum: its tangent is zero, so it is not handed on.
+    return anp.sum(g, axis=axis, dtype=dtype, keepdims=keepdims, **kwargs)
+
+
+defjvp(anp.sum, fwd_grad_np_sum)
 defjvp(anp.mean, "same")
 defjvp(
     anp.prod, lambda g, ans, x, axis=None, keepdims=False: ans * anp.sum(g / x, axis=axis, keepdims=keepdims)
